@@ -66,6 +66,8 @@ import (
 	"mosn.io/pkg/variable"
 )
 
+const c07rlProp = "C07"
+
 // ---------------------------------------------------------------- frames / streams
 
 type c07rlFrame struct {
@@ -224,8 +226,6 @@ type c07rlCase struct {
 
 // ---------------------------------------------------------------- scripted net.Conn
 
-type c07rlAddr struct{}
-
 var c07rlTCPAddr = &net.TCPAddr{IP: net.IPv4(127, 0, 0, 1), Port: 1107}
 
 type c07rlConn struct {
@@ -258,6 +258,9 @@ func (c *c07rlConn) Read(p []byte) (int, error) {
 	if c.reads > r.readBudget {
 		// the script is over but the read path keeps reading: stop the run
 		r.signalAbort()
+		if !r.netpol {
+			panic(c07rlStop{}) // unwinds startReadLoop (recovered by c07rlExec)
+		}
 		return 0, io.EOF
 	}
 	r.observeRead()
@@ -334,6 +337,8 @@ type c07rlGot struct {
 }
 
 type c07rlFail struct{ what, detail string }
+
+type c07rlStop struct{}
 
 type c07rlRun struct {
 	mu     sync.Mutex
@@ -459,7 +464,11 @@ func (f *c07rlFilter) OnData(buf buffer.IoBuffer) api.FilterStatus {
 			r.closeLocked(api.LocalClose)
 			return api.Stop
 		}
-		pre := append([]byte(nil), buf.Bytes()...)
+		// view of the buffer before Decode; Decode only advances the read offset
+		// (Drain), so the consumed prefix is still readable right after it returns
+		// and is copied then (copying the whole buffer per Decode made 1-byte
+		// reads quadratic)
+		pre := buf.Bytes()
 		ctx := variable.NewVariableContext(buffer.NewBufferPoolContext(context.Background()))
 		frame, err, pan := f.decode(ctx, buf)
 		used := len(pre) - buf.Len()
@@ -491,7 +500,7 @@ func (f *c07rlFilter) OnData(buf buffer.IoBuffer) api.FilterStatus {
 			r.closeLocked(api.LocalClose)
 			return api.Stop
 		}
-		g := c07rlGot{Raw: pre[:used], ID: xf.GetRequestId(), Type: xf.GetStreamType()}
+		g := c07rlGot{Raw: append([]byte(nil), pre[:used]...), ID: xf.GetRequestId(), Type: xf.GetStreamType()}
 		if d := xf.GetData(); d != nil && !reflect.ValueOf(d).IsNil() {
 			g.Content = append([]byte(nil), d.Bytes()...)
 		}
@@ -625,6 +634,10 @@ func c07rlExec(c c07rlCase) (r *c07rlRun, harnessErr string) {
 		func() {
 			defer func() {
 				if x := recover(); x != nil {
+					if _, stop := x.(c07rlStop); stop {
+						conn.Close(api.NoFlush, api.LocalClose)
+						return
+					}
 					r.mu.Lock()
 					r.failf("panic in the connection read path"+r.afterTimeout(), "%v\n%s", x, c07rlShortStack())
 					r.mu.Unlock()
@@ -819,17 +832,25 @@ func TestVerifC07ReadLoopCuts(t *testing.T) {
 			l := len(s.Bytes)
 			bp := s.boundaryPositions()
 			short := l <= 520
-			// 0 cuts and 1 cut at every offset: all read caps, both EOF styles
+			// 0 cuts: all read caps, both EOF styles
 			if !c07rlCutCases("loop", si, nil, []int{0, 1, 7}, []bool{false, true}, yield) {
 				return
 			}
+			// 1 cut at every offset, uncapped reads, both EOF styles; the capped
+			// reads (1 and 7 bytes per Read) at every offset in the thorough tier,
+			// at the boundary offsets in the quick tier
+			isB := map[int]bool{}
+			for _, b := range bp {
+				isB[b] = true
+			}
 			for i := 1; i < l; i++ {
-				caps := []int{0, 7}
-				if short || thorough {
-					caps = []int{0, 1, 7}
-				}
-				if !c07rlCutCases("loop", si, []int{i}, caps, []bool{false, true}, yield) {
+				if !c07rlCutCases("loop", si, []int{i}, []int{0}, []bool{false, true}, yield) {
 					return
+				}
+				if thorough || isB[i] {
+					if !c07rlCutCases("loop", si, []int{i}, []int{1, 7}, []bool{false}, yield) {
+						return
+					}
 				}
 			}
 			// 2 cuts: boundary positions (quick), every pair of offsets for the short streams (thorough)
@@ -866,8 +887,9 @@ func TestVerifC07ReadLoopCuts(t *testing.T) {
 	}
 	complete := vreport.Run(p, gen, c07rlCheck(t))
 	p.End(complete,
-		fmt.Sprintf("streams %s of bolt frames (26..1150 bytes, default read buffer %d); per stream: whole delivery and 1 cut at every offset x read cap {none,1,7} x {EOF after / with the last bytes}; 2 cuts: %s; %s; every placement of 0, 1, 2 read timeouts over the gaps (before the first chunk, between chunks, before EOF)",
+		fmt.Sprintf("streams %s of bolt frames (26..1150 bytes, default read buffer %d); per stream: whole delivery x read cap {none,1,7} x {EOF after / with the last bytes}; 1 cut at every offset x both EOF styles, plus read cap {1,7} at %s; 2 cuts: %s; %s; every placement of 0, 1, 2 read timeouts over the gaps (before the first chunk, between chunks, before EOF)",
 			c07rlStreamNames(), DefaultReadBufferSize,
+			map[bool]string{false: "the boundary offsets", true: "every offset"}[thorough],
 			map[bool]string{false: "every pair of boundary offsets", true: "every pair of offsets (streams <= 520 bytes), every pair of boundary offsets (longer stream)"}[thorough],
 			map[bool]string{false: "no 3-cut sets", true: "3 cuts: every triple of boundary offsets"}[thorough]),
 		"a case = (stream, chunk sizes, timeouts per gap, read cap, EOF style) run on a fresh real server connection whose startReadLoop is called synchronously over a scripted net.Conn; distinct = stream x read cap x EOF style x per gap (frame index + header/body/boundary class of the offset, beyond/below the default buffer size, number of timeouts); compared: frames handed to the filter (bytes, id, type, body) against the frames sent, buffer content at every filter call against the received-but-unconsumed bytes; recorded only: OnReadTimeout events, buffer capacity, shrinks")
